@@ -86,7 +86,15 @@ func runSolver(sp solverSpec, file string, timeoutS int) (string, string, float6
 }
 
 // solve runs the portfolio on one query.
-func (p *Pool) solve(name, query string) *solveResult {
+func (p *Pool) solve(name, query string) *solveResult { return p.solveT(name, query, p.timeoutS) }
+
+func (p *Pool) solveT(name, query string, timeoutS int) *solveResult {
+	saved := p.timeoutS
+	_ = saved
+	return p.solveWith(name, query, timeoutS)
+}
+
+func (p *Pool) solveWith(name, query string, tmo int) *solveResult {
 	h := sha256.Sum256([]byte(query))
 	p.mu.Lock()
 	if r, ok := p.cache[h]; ok {
@@ -111,7 +119,7 @@ func (p *Pool) solve(name, query string) *solveResult {
 			wg.Add(1)
 			go func(sp solverSpec) {
 				defer wg.Done()
-				st, out, _ := runSolver(sp, file, p.timeoutS)
+				st, out, _ := runSolver(sp, file, tmo)
 				mu.Lock()
 				res.all[sp.name] = st
 				outs[sp.name] = out
@@ -143,14 +151,14 @@ func (p *Pool) solve(name, query string) *solveResult {
 	} else {
 		// fast path: z3-new with a short budget, then the others in parallel
 		first := 3
-		if p.timeoutS < first {
-			first = p.timeoutS
+		if tmo < first {
+			first = tmo
 		}
 		lead := solvers[0]
 		if strings.Contains(query, "fp.") {
 			// floating-point goals: cvc5 decides in a second what z3 needs tens of seconds for
 			lead = solvers[2]
-			first = p.timeoutS
+			first = tmo
 		}
 		st, out, _ := runSolver(lead, file, first)
 		res.all[lead.name] = st
@@ -163,7 +171,7 @@ func (p *Pool) solve(name, query string) *solveResult {
 				out string
 			}
 			// cvc5 alone next: it decides most FP/quantified goals z3 is slow on
-			st2, out2, _ := runSolver(solvers[2], file, p.timeoutS)
+			st2, out2, _ := runSolver(solvers[2], file, tmo)
 			res.all[solvers[2].name] = st2
 			if decisive(st2) {
 				res.status, res.solver, res.output = st2, solvers[2].name, out2
@@ -172,7 +180,7 @@ func (p *Pool) solve(name, query string) *solveResult {
 			ch := make(chan r, 3)
 			for _, sp := range solvers[:2] {
 				go func(sp solverSpec) {
-					st, out, _ := runSolver(sp, file, p.timeoutS)
+					st, out, _ := runSolver(sp, file, tmo)
 					ch <- r{sp, st, out}
 				}(sp)
 			}
@@ -238,7 +246,12 @@ func (p *Pool) submit(o *Obligation, done func(*Obligation)) {
 	p.sem <- struct{}{}
 	go func() {
 		defer func() { <-p.sem; p.wg.Done() }()
-		r := p.solve(o.Name, o.Query)
+		var r *solveResult
+		if o.Cover {
+			r = p.solveT(o.Name, o.Query, 4) // satisfiability of the assumptions: a short look is enough
+		} else {
+			r = p.solve(o.Name, o.Query)
+		}
 		if r.status != "unsat" && o.QueryFull != "" && !o.Cover {
 			// the slice may have dropped the facts that make this path infeasible
 			r2 := p.solve(o.Name, o.QueryFull)
